@@ -1276,3 +1276,323 @@ def eval_config_session(ctx):
     except (Raised, Unsupported) as exc:
         steps.append(("third invocation loads the file", f"<{type(exc).__name__}: {exc}>", "loads what the second one saved"))
     return steps
+
+
+# --------------------------------------------------------------------------- schedule() on concrete witness workflows
+def eval_schedule(ctx, deps, states, stale, endpoints):
+    """scheduling.schedule evaluated on a concrete dependency relation.
+
+    deps: {name: [direct dependency names]}, states: {name: BackendStatus member}, stale: set of names for which should_run is True.
+    Returns ({name: Status member}, [(submitted name, [prerequisite names])]) or an error string."""
+    sch = ctx.index.func("gwf.scheduling:schedule")
+    T = {n: Obj("target", name=n) for n in deps}
+    graph = Obj("graph", dependencies={T[n]: {T[d] for d in ds} for n, ds in deps.items()})
+    submitted = []
+
+    def status_func(target):
+        return EnumVal("gwf.backends.base.BackendStatus", states.get(target.name, "UNKNOWN"))
+
+    def submit_func(target, dependencies=None, **k):
+        submitted.append((target.name, sorted(d.name for d in (dependencies or []))))
+
+    hooks = {"gwf.scheduling.should_run": lambda target, fs, sh: target.name in stale}
+    interp = PureInterp(ctx, hooks=hooks)
+    interp.max_depth = 60
+    try:
+        res = interp.call(sch, ([T[e] for e in endpoints], graph, Obj("fs"), Obj("spec_hashes"), status_func, submit_func))
+    except (Raised, Unsupported) as exc:
+        return f"<{type(exc).__name__}: {exc}>", submitted
+    out = {}
+    for k, v in dict(res).items():
+        out[k.name] = v.member if isinstance(v, EnumVal) else v
+    return out, submitted
+
+
+def schedule_oracle(deps, states, stale, endpoints):
+    """What the property prescribes (C02): statuses, the set submitted with their prerequisite sets."""
+    cone, stack = set(), list(endpoints)
+    while stack:
+        n = stack.pop()
+        if n not in cone:
+            cone.add(n)
+            stack.extend(deps[n])
+    status, subs = {}, {}
+
+    def decide(n):
+        if n in status:
+            return status[n]
+        not_complete = sorted(d for d in deps[n] if decide(d) != "COMPLETED")
+        st = states.get(n, "UNKNOWN")
+        if st in ("SUBMITTED", "RUNNING"):
+            status[n] = st
+        elif st in ("FAILED", "CANCELLED"):
+            status[n] = st
+            subs[n] = not_complete
+        elif not_complete or n in stale:
+            status[n] = "SHOULDRUN"
+            subs[n] = not_complete
+        else:
+            status[n] = "COMPLETED"
+        return status[n]
+    for n in sorted(cone):
+        decide(n)
+    return status, subs
+
+
+SCHEDULE_GRAPHS = {
+    "chain": ({"A": [], "B": ["A"], "C": ["B"]}, ["C"]),
+    "diamond": ({"A": [], "B": ["A"], "C": ["A"], "D": ["B", "C"]}, ["D"]),
+    "two endpoints sharing a dependency, one requested": ({"A": [], "X": ["A"], "Y": ["A"], "Z": []}, ["X"]),
+}
+
+
+def schedule_witness(ctx, full=False):
+    import itertools
+    ST = ["UNKNOWN", "SUBMITTED", "RUNNING", "COMPLETED", "FAILED", "CANCELLED"]
+    diffs, n = [], 0
+    for gname, (deps, endpoints) in SCHEDULE_GRAPHS.items():
+        names = sorted(deps)
+        vectors = []
+        if full:
+            vectors = [dict(zip(names, v)) for v in itertools.product(ST, repeat=len(names))]
+        else:
+            for nm in names:
+                for st in ST:
+                    vectors.append({nm: st})
+            vectors += [{names[0]: "FAILED", names[-1]: "SUBMITTED"}, {names[0]: "FAILED", names[-1]: "RUNNING"}, {names[0]: "RUNNING", names[-1]: "FAILED"},
+                        {names[0]: "CANCELLED", names[1]: "SUBMITTED"}, {names[0]: "COMPLETED", names[1]: "FAILED", names[-1]: "CANCELLED"}]
+        stales = [set(), {names[0]}, {names[-1]}, set(names)] + ([{names[1]}] if len(names) > 2 else [])
+        for states in vectors:
+            for stale in stales:
+                got = eval_schedule(ctx, deps, states, stale, endpoints)
+                if isinstance(got[0], str):
+                    if got[0].startswith("<Unsupported"):
+                        return n, diffs, got[0]
+                    n += 1
+                    diffs.append(f"{gname} {states} stale={sorted(stale)}: schedule() ends with {got[0]}")
+                    continue
+                n += 1
+                st_got, sub_got = got
+                st_want, sub_want = schedule_oracle(deps, states, stale, endpoints)
+                where = f"workflow `{gname}` (requested {endpoints}), backend states {states or 'all unknown'}, stale {sorted(stale) or 'none'}"
+                if st_got != st_want:
+                    k = next(k for k in sorted(set(st_got) | set(st_want)) if st_got.get(k) != st_want.get(k))
+                    diffs.append(f"{where}: target {k} is decided {st_got.get(k, 'not at all')}, the property prescribes {st_want.get(k, 'outside the cone: untouched')}")
+                names_sub = [s[0] for s in sub_got]
+                if sorted(names_sub) != sorted(sub_want):
+                    diffs.append(f"{where}: submitted {names_sub}, the property prescribes {sorted(sub_want)}")
+                    continue
+                for i, (nm, pre) in enumerate(sub_got):
+                    if pre != sub_want[nm]:
+                        diffs.append(f"{where}: {nm} is submitted with prerequisites {pre}, expected exactly its incomplete direct dependencies {sub_want[nm]}")
+                    if any(d in names_sub and names_sub.index(d) > i for d in deps[nm]):
+                        diffs.append(f"{where}: {nm} is submitted before a dependency it has to wait for ({names_sub})")
+                if len(diffs) > 5:
+                    return n, diffs, None
+    return n, diffs, None
+
+
+# --------------------------------------------------------------------------- `gwf clean` and `gwf touch` on a witness project
+WITNESS_PROJECT = {
+    # name: (dependencies, outputs, protected, is endpoint)
+    "A": ([], ["/p/a1", "/p/a2", "/p/a3"], {"/p/a3"}, False),
+    "B": (["A"], ["/p/b1"], set(), True),
+    "S": ([], ["/p/s1"], set(), False),
+    "C": (["S"], ["/p/c1"], set(), True),
+}
+WITNESS_EXISTING = {"/p/a1", "/p/a3", "/p/b1", "/p/s1", "/p/c1", "/p/source.txt", "/p/.gwf/logs/A.stdout"}
+
+
+TOUCH_PROJECT = {
+    "A": ([], ["/p/a1", "/p/a2"], set(), False),
+    "B": (["A"], ["/p/sub/b1"], set(), False),
+    "S": ([], ["/p/s1"], set(), False),
+    "C": (["S", "A"], ["/p/c1"], set(), False),
+    "All": (["B", "C"], [], set(), True),       # an aggregate target without outputs
+    "Other": ([], ["/p/o1"], set(), True),
+}
+
+
+def _witness_graph(WITNESS_PROJECT=None):
+    WITNESS_PROJECT = WITNESS_PROJECT or globals()["WITNESS_PROJECT"]
+    T = {n: Obj("target", name=n) for n in WITNESS_PROJECT}
+    graph = GraphTok(T[n] for n in WITNESS_PROJECT)
+    deps = {T[n]: {T[d] for d in v[0]} for n, v in WITNESS_PROJECT.items()}
+    dependents = {T[n]: {T[m] for m, v in WITNESS_PROJECT.items() if n in v[0]} for n in WITNESS_PROJECT}
+    hooks = {
+        "attr:flattened_outputs": lambda recv: list(WITNESS_PROJECT[recv.name][1]),
+        "attr:flattened_inputs": lambda recv: [],
+        "attr:protected": lambda recv: set(WITNESS_PROJECT[recv.name][2]),
+        "attr:endpoints": lambda recv: {T[n] for n, v in WITNESS_PROJECT.items() if v[3]},
+        "getattr:dependencies": lambda o: deps, "getattr:dependents": lambda o: dependents,
+        "getattr:targets": lambda o: {n: T[n] for n in WITNESS_PROJECT},
+        "gwf.workflow.Workflow.from_context": lambda c: Obj("workflow", targets={n: T[n] for n in WITNESS_PROJECT}),
+        "gwf.Workflow.from_context": lambda c: Obj("workflow", targets={n: T[n] for n in WITNESS_PROJECT}),
+        "gwf.core.Graph.from_targets": lambda *a, **k: graph,
+        "gwf.core.CachedFilesystem": lambda *a, **k: Obj("fs"),
+    }
+    return T, graph, hooks
+
+
+def eval_clean_command(ctx, targets=(), all_=False, force=False, decline=False):
+    fn = ctx.index.func("gwf.plugins.clean:clean")
+    T, graph, hooks = _witness_graph()
+    events = []
+
+    def h_confirm(*a, **k):
+        events.append(("prompt",))
+        if decline:
+            if k.get("abort"):
+                raise Raised("Abort", "declined")
+            return False
+        return True
+
+    def h_remove(path):
+        events.append(("remove", str(path)))
+        if str(path) not in WITNESS_EXISTING:
+            raise Raised("FileNotFoundError", str(path))
+
+    store = Obj("spec_hashes")
+    hooks.update({
+        "click.confirm": h_confirm, "os.remove": h_remove, "os.unlink": h_remove, "attr:unlink": lambda recv, *a, **k: h_remove(str(recv)),
+        "os.path.exists": lambda p: str(p) in WITNESS_EXISTING, "os.path.getsize": lambda p: 10, "os.path.isfile": lambda p: str(p) in WITNESS_EXISTING,
+        "gwf.core.get_spec_hashes": lambda *a, **k: (events.append(("open-store",)), store)[1],
+        "attr:invalidate": lambda recv, t: events.append(("invalidate", t.name)),
+        "with_exit": lambda v: events.append(("close-store",)) if v is store else None,
+        "click.format_filename": lambda p, *a, **k: str(p), "click.echo": lambda *a, **k: None,
+        "shutil.rmtree": lambda p, *a, **k: events.append(("rmtree", str(p))),
+    })
+    interp = PureInterp(ctx, hooks=hooks)
+    interp.max_depth = 10
+    out = {"events": events, "raised": None}
+    try:
+        interp.call(fn, (Obj("ctx", working_dir="/p", config={}, backend="B"), tuple(targets), all_, force))
+    except Raised as exc:
+        out["raised"] = exc.kind
+    except Unsupported as exc:
+        return None, f"Unsupported: {exc}"
+    return out, None
+
+
+def clean_command_witness(ctx):
+    rows = [
+        # label, targets, all, force, decline -> removed, invalidated, prompt?
+        ("gwf clean --force", (), False, True, False, {"/p/a1", "/p/s1"}, {"A", "S"}, False),
+        ("gwf clean --all --force", (), True, True, False, {"/p/a1", "/p/s1", "/p/b1", "/p/c1"}, {"A", "B", "S", "C"}, False),
+        ("gwf clean A", ("A",), False, False, False, {"/p/a1"}, {"A"}, False),
+        ("gwf clean B (an endpoint, without --all)", ("B",), False, False, False, set(), set(), False),
+        ("gwf clean --all B", ("B",), True, False, False, {"/p/b1"}, {"B"}, False),
+        ("gwf clean 'S*' A", ("S*", "A"), False, False, False, {"/p/a1", "/p/s1"}, {"A", "S"}, False),
+        ("gwf clean (prompt accepted)", (), False, False, False, {"/p/a1", "/p/s1"}, {"A", "S"}, True),
+        ("gwf clean (prompt declined)", (), False, False, True, set(), set(), True),
+        ("gwf clean --all (prompt declined)", (), True, False, True, set(), set(), True),
+    ]
+    diffs, n = [], 0
+    for label, targets, all_, force, decline, want_rm, want_inv, want_prompt in rows:
+        out, err = eval_clean_command(ctx, targets, all_, force, decline)
+        if err:
+            return n, diffs, err
+        n += 1
+        ev = out["events"]
+        kinds = [e[0] for e in ev]
+        removed = {e[1] for e in ev if e[0] in ("remove", "rmtree")}
+        existing_removed = removed & WITNESS_EXISTING
+        inv = {e[1] for e in ev if e[0] == "invalidate"}
+        if decline:
+            if out["raised"] != "Abort":
+                diffs.append(f"`{label}`: declining the prompt ends with {out['raised']}, expected click.Abort")
+            if removed or inv or "open-store" in kinds[:kinds.index("prompt")] if "prompt" in kinds else False:
+                diffs.append(f"`{label}`: although the prompt was declined, files {sorted(removed)} are removed / hashes of {sorted(inv)} forgotten / the hash store was opened before the prompt")
+            elif removed or inv:
+                diffs.append(f"`{label}`: although the prompt was declined, files {sorted(removed)} are removed and hashes of {sorted(inv)} forgotten")
+            continue
+        if out["raised"]:
+            diffs.append(f"`{label}` ends with {out['raised']}")
+            continue
+        bad = removed - {p for v in WITNESS_PROJECT.values() for p in v[1]}
+        if bad:
+            diffs.append(f"`{label}` removes {sorted(bad)}, which is not a declared output of any target")
+        if "/p/a3" in removed:
+            diffs.append(f"`{label}` removes the protected output /p/a3")
+        if existing_removed != want_rm:
+            diffs.append(f"`{label}` removes {sorted(existing_removed)}; the property prescribes {sorted(want_rm)} (existing unprotected outputs of the selected targets"
+                         f"{'' if all_ else ', endpoints B and C excluded'})")
+        if inv != want_inv:
+            diffs.append(f"`{label}` forgets the spec hashes of {sorted(inv)}, expected {sorted(want_inv)}")
+        if ("prompt" in kinds) != want_prompt:
+            diffs.append(f"`{label}`: prompt {'shown' if 'prompt' in kinds else 'not shown'}, expected {'shown' if want_prompt else 'not shown'}")
+        if want_prompt and "prompt" in kinds and any(k in ("remove", "invalidate") for k in kinds[:kinds.index("prompt")]):
+            diffs.append(f"`{label}`: effects happen before the confirmation prompt")
+        if inv and "close-store" not in kinds:
+            diffs.append(f"`{label}`: the spec-hash store is not closed (the forgotten hashes are not persisted)")
+    return n, diffs, None
+
+
+def eval_touch_command(ctx, targets=()):
+    fn = ctx.index.func("gwf.plugins.touch:touch")
+    T, graph, hooks = _witness_graph(TOUCH_PROJECT)
+    events = []
+    store = Obj("spec_hashes")
+    hooks.update({
+        "pathlib.Path": lambda *a: PathTok("/".join(str(x) for x in a)),
+        "getattr:parent": lambda o: PathTok(str(o).rsplit("/", 1)[0] or "/"),
+        "attr:mkdir": lambda recv, *a, **k: events.append(("mkdir", str(recv), dict(k))),
+        "attr:touch": lambda recv, *a, **k: events.append(("touch", str(recv), dict(k))),
+        "os.makedirs": lambda p, *a, **k: events.append(("mkdir", str(p), dict(k))),
+        "os.utime": lambda p, *a, **k: events.append(("touch", str(p), {})),
+        "os.path.dirname": lambda p: str(p).rsplit("/", 1)[0],
+        "builtins.open": lambda p, mode="r", *a, **k: (events.append(("open", str(p), mode)), Obj("file", path=str(p), mode=mode))[1],
+        "gwf.core.get_spec_hashes": lambda *a, **k: (events.append(("open-store",)), store)[1],
+        "attr:update": lambda recv, t: events.append(("update", t.name)),
+        "with_exit": lambda v: events.append(("close-store",)) if v is store else None,
+    })
+    interp = PureInterp(ctx, hooks=hooks)
+    interp.max_depth = 30
+    out = {"events": events, "raised": None}
+    try:
+        interp.call(fn, (Obj("ctx", working_dir="/p", config={}, backend="B"), tuple(targets)))
+    except Raised as exc:
+        out["raised"] = exc.kind
+    except Unsupported as exc:
+        return None, f"Unsupported: {exc}"
+    return out, None
+
+
+def touch_command_witness(ctx):
+    WITNESS_PROJECT = TOUCH_PROJECT
+    rows = [("gwf touch", (), {"A", "B", "S", "C", "All", "Other"}), ("gwf touch All", ("All",), {"A", "B", "S", "C", "All"}), ("gwf touch B", ("B",), {"A", "B"}),
+            ("gwf touch A", ("A",), {"A"}), ("gwf touch 'C*' Other", ("C*", "Other"), {"A", "S", "C", "Other"})]
+    diffs, n = [], 0
+    for label, targets, cone in rows:
+        out, err = eval_touch_command(ctx, targets)
+        if err:
+            return n, diffs, err
+        n += 1
+        if out["raised"]:
+            diffs.append(f"`{label}` ends with {out['raised']}")
+            continue
+        ev = out["events"]
+        touched = [e[1] for e in ev if e[0] == "touch"]
+        writes = [e for e in ev if e[0] == "open" and any(ch in e[2] for ch in "wa+x")]
+        want = [p for nme in WITNESS_PROJECT if nme in cone for p in WITNESS_PROJECT[nme][1]]
+        if sorted(touched) != sorted(want):
+            diffs.append(f"`{label}` touches {sorted(touched)}; the property prescribes exactly the outputs of the cone {sorted(cone)}: {sorted(want)}")
+            continue
+        if writes:
+            diffs.append(f"`{label}` opens {writes[0][1]} for writing (mode {writes[0][2]}): the content of existing files must never change")
+        for e in ev:
+            if e[0] == "touch" and e[2].get("exist_ok") is False:
+                diffs.append(f"`{label}`: touch(exist_ok=False) fails on outputs that already exist")
+        # dependency order: every output of a dependency is touched before any output of its dependent
+        pos = {p: i for i, p in enumerate(touched)}
+        for nme in cone:
+            for d in WITNESS_PROJECT[nme][0]:
+                if WITNESS_PROJECT[d][1] and WITNESS_PROJECT[nme][1] and max(pos[p] for p in WITNESS_PROJECT[d][1]) > min(pos[p] for p in WITNESS_PROJECT[nme][1]):
+                    diffs.append(f"`{label}`: outputs of {nme} are touched before those of its dependency {d}: {nme} would look stale afterwards")
+        upd = [e[1] for e in ev if e[0] == "update"]
+        if sorted(upd) != sorted(cone):
+            diffs.append(f"`{label}` records the spec hashes of {sorted(upd)}, expected those of the cone {sorted(cone)} (each once)")
+        kinds = [e[0] for e in ev]
+        if "close-store" not in kinds or any(k == "update" for k in kinds[kinds.index("close-store"):]):
+            diffs.append(f"`{label}`: spec hashes are recorded outside the store's with-block (never persisted)")
+    return n, diffs, None
